@@ -104,7 +104,8 @@ class GpOptimiser:
         self.y = array(y)
         self.y_err = None if y_err is None else array(y_err)
 
-        self.bounds = bounds
+        # (its own copy of the search bounds, as a list of (lower, upper) pairs)
+        self.bounds = [(b[0], b[1]) for b in bounds]
         self.kernel = kernel
         self.mean = mean
         self.cross_val = cross_val
